@@ -206,7 +206,7 @@ func VerifH_body_chunks() {
 			return
 		}
 		if err == io.EOF {
-			vfCover("eof-with-carry")
+			vfFail("io.EOF reported while undelivered bytes remain in dst[n:]")
 		}
 	}
 	vfFail("chunker did not finish the body within total+3 calls")
